@@ -19,10 +19,13 @@ import asyncio
 
 from harness import c01 as h01
 
-RULE = ("exhaustive over scenarios (harness/c01.py: 31 native sets x AirPlay video flag, all 180 (set-up set, failing-connect "
-        "subset) pairs, 48 MRP-tunnel / unified-RAOP configurations with the Companion service absent / without "
-        "credentials / connected, each with every single failing connect, plus seeded random ones) x {no takeover, takeover "
-        "holders} x 66 feature names, on the real facade and on the model (keyed by the connected set); non-trivial = the "
+RULE = ("exhaustive over scenarios (harness/c01.py: 31 native sets x AirPlay video flag and x real TXT records, all 180 (set-up "
+        "set, failing-connect subset) pairs, 48 MRP-tunnel / unified-RAOP configurations, five real devices as pyatv's own "
+        "scanner sees them (Apple TV 4K, Apple TV 3, HomePod, Music via HSCP, AirPort Express) x every set of their protocols "
+        "left enabled, plus seeded random ones) x {no takeover, takeover holders} x 66 feature names, on the device object "
+        "returned by the real pyatv.connect() and on the model (keyed by the connected set); the same oracle again (a) on "
+        "every device right after each other device was set up in the same process (all ordered pairs, seeded order) and "
+        "(b) after every step of random well-formed takeover/release histories with refused takeovers; non-trivial = the "
         "facade reports the feature in a state other than Unsupported (the property's hypothesis holds); plus (protocol, "
         "state in {fresh, rich}, feature) for the five get_feature implementations")
 ASSUMPTIONS = [
@@ -83,6 +86,12 @@ def invoke_all(world, todo):
 
     with warnings.catch_warnings(record=True):
         return world.p.loop.run_until_complete(go())
+
+
+def json_key(extra):
+    import json
+
+    return json.dumps(extra, sort_keys=True, default=str)
 
 
 def kv(s):
@@ -171,9 +180,23 @@ def make_rich(proto, feats):
     # AirPlay: the only condition is the video flag of the service (chosen at world construction)
 
 
-def run(ctx, only=None):
+def apply_ops(world, ops):
+    """takeover/release history of harness/c01.gen_history on the real device object; yields after every op"""
+    closures = []
+    for step, op in enumerate(ops):
+        if op[0] == "takeover":
+            status, closure = world.takeover(op[1], op[2])
+            if status == "ok":
+                closures.append(closure)
+        elif op[1] < len(closures):
+            closures[op[1]]()
+        yield step
+
+
+def run(ctx, only=None, before=None, ops=None):
     from pyatv import interface
     from pyatv.const import FeatureName, FeatureState
+    from tools.gen.c01 import DEVICE_PROFILES
 
     loop = asyncio.new_event_loop()
     asyncio.set_event_loop(loop)
@@ -182,17 +205,100 @@ def run(ctx, only=None):
         fmembers = feature_members(patches)
         feats = sorted(FeatureName, key=lambda f: f.value)
         obs = []
+
+        def evaluate(world, sc, holder, extra=None, tag=""):
+            """the C13 oracle + observations for the model, in the state the device object is in now"""
+            S, video, key = world.S, world.video, h01.scen_key(sc)
+            where = tag and f" [{tag}]"
+            base_case = dict({"scenario": sc, "holder": holder}, **(extra or {}))
+            reported, backed, amap, todo = {}, {}, {}, []
+            for f in feats:
+                try:
+                    state = world.atv.features.get_feature(f).state.name
+                except Exception as e:
+                    state = "err:" + type(e).__name__
+                reported[f.name] = state
+                members = fmembers.get(f.value, [])
+                ok = [m for m in members if relay_ok(world, *m)]
+                backed[f.name] = "1" if ok else "0"
+                entry = world.atv.features._feature_map.get(f)
+                amap[f.name] = entry[0].name if entry else "-"
+                nontrivial = state != "Unsupported"
+                ctx.case([key, holder, f.name, tag and json_key(extra)], nontrivial,
+                         sample={"scenario": key, "connected": S, "holder": holder, "feature": f.name, "state": state,
+                                 "answered_by": amap[f.name], "backing_members": ["%s.%s" % m for m in ok], "when": tag or "after connect"}
+                         if nontrivial and (world.fail or sc["tunnel"] or holder or tag) else None)
+                ctx.note("state:" + state)
+                if nontrivial and not ok:
+                    ctx.fail(f"{tag or 'connect'}:{key}:{holder or '-'}:{f.name}",
+                             dict(base_case, feature=f.name),
+                             f"{state}; members {members}: all NotSupportedError",
+                             "some member the feature stands for is routed to an implementation",
+                             f"connected {'+'.join(S)} ({key}, takeover holder {holder or 'none'}){where} reports {f.name}={state} "
+                             f"(answered by {amap[f.name]}) but no connected protocol implements "
+                             f"{', '.join('%s.%s' % m for m in members) or '(no member)'}")
+                if nontrivial:
+                    for (i, m) in ok:
+                        if i in h01.NINE:
+                            todo += [(f.name, state, i, m, label, override) for label, override in [("", None)] + world.variants(i, m)]
+                if nontrivial and ok and amap[f.name] != "-":
+                    i, m = ok[0]
+                    try:
+                        target = world.relayers[i].relay(m) if (i, m) != ("PushUpdater", "start") else None
+                    except Exception:
+                        target = None
+                    serving = patches.owner.get(id(getattr(target, "__self__", None)))
+                    if serving is not None:
+                        ctx.note("answering-vs-serving:" + ("same" if serving == amap[f.name] else "different"))
+            # the reported features' members, actually invoked through the device object with
+            # default-style arguments and every other value of their enum / optional parameters
+            gate = None
+            for (fname, state, i, m, label, _o), got in zip(todo, invoke_all(world, todo)):
+                ctx.note("invoked:" + ("not-supported" if got.startswith("!") else "served"))
+                if not got.startswith("!"):
+                    continue
+                if (i, m) == ("Stream", "play_url"):
+                    gate = world.gate_open() if gate is None else gate
+                    if not gate:
+                        ctx.note("oracle:play_url-gate-closed-not-judged")
+                        continue
+                call = f"{i}.{m}({label})"
+                ctx.fail(f"{tag or 'connect'}:{key}:{holder or '-'}:{fname}:{call}",
+                         dict(base_case, feature=fname, call=call),
+                         f"{state}; {call} raised NotSupportedError", "the call is routed to an implementation",
+                         f"connected {'+'.join(S)} ({key}, takeover holder {holder or 'none'}){where} reports {fname}={state} "
+                         f"and a connected protocol implements {i}.{m}, but {call} through the device object "
+                         f"fails with NotSupportedError")
+            obs.append((sc, S, video, holder, reported, backed, amap))
+
+        # -- several devices in one process, in varying order: each evaluated after the others were set up
+        built_before = []
+        if only is None:
+            devices = [h01.device_scenario(name) for name in DEVICE_PROFILES] + [h01.scenario()]
+            pairs = [(a, b) for a in devices for b in devices if a is not b]
+            ctx.rng.fork("device-order").shuffle(pairs)
+            for a, b in pairs:
+                h01.World(patches, a)
+                built_before.append(a)
+                world = h01.World(patches, b)
+                if not world.connect_error and world.S:
+                    evaluate(world, b, None, {"before": list(built_before)}, "after-other-devices")
+                built_before.append(b)
+                ctx.note("devices:set-up-after-another")
+        for sc in (before or []):
+            h01.World(patches, sc)
+
         if only is not None:
             scenarios = only
         else:
             scenarios = h01.all_scenarios(patches, ctx.rng.fork("scenarios"), extra=ctx.scale(40, 400))
-        for sc in scenarios:
+        for sc in ([] if ops is not None else scenarios):
             world = h01.World(patches, sc)
             if world.connect_error or not world.S:
                 ctx.note("scenario:nothing-connected")
                 continue
-            S, video, key = world.S, world.video, h01.scen_key(sc)
-            ctx.note("scenario:" + ("native" if not (sc["tunnel"] or sc["unified"]) else "tunnel/unified")
+            key = h01.scen_key(sc)
+            ctx.note("scenario:" + ("device" if sc.get("profile") else "native" if not (sc["tunnel"] or sc["unified"]) else "tunnel/unified")
                      + ("+failing-connect" if world.fail else ""))
             holders = [None] + (h01.TEXT_ORDER if (ctx.thorough or not world.fail or only is not None) else [h01.TEXT_ORDER[len(key) % 5]])
             for holder in holders:
@@ -202,67 +308,32 @@ def run(ctx, only=None):
                     if status != "ok":
                         ctx.disagree({"scenario": sc, "holder": holder}, status, "ok", where="takeover of all interfaces")
                         continue
-                reported, backed, amap, todo = {}, {}, {}, []
-                for f in feats:
-                    try:
-                        state = world.atv.features.get_feature(f).state.name
-                    except Exception as e:
-                        state = "err:" + type(e).__name__
-                    reported[f.name] = state
-                    members = fmembers.get(f.value, [])
-                    ok = [m for m in members if relay_ok(world, *m)]
-                    backed[f.name] = "1" if ok else "0"
-                    entry = world.atv.features._feature_map.get(f)
-                    amap[f.name] = entry[0].name if entry else "-"
-                    nontrivial = state != "Unsupported"
-                    ctx.case([key, holder, f.name], nontrivial,
-                             sample={"scenario": key, "connected": S, "holder": holder, "feature": f.name, "state": state,
-                                     "answered_by": amap[f.name], "backing_members": ["%s.%s" % m for m in ok]}
-                             if nontrivial and (world.fail or sc["tunnel"] or holder) else None)
-                    ctx.note("state:" + state)
-                    if nontrivial and not ok:
-                        ctx.fail(f"{key}:{holder or '-'}:{f.name}",
-                                 {"scenario": sc, "holder": holder, "feature": f.name},
-                                 f"{state}; members {members}: all NotSupportedError",
-                                 "some member the feature stands for is routed to an implementation",
-                                 f"connected {'+'.join(S)} ({key}, takeover holder {holder or 'none'}) reports {f.name}={state} "
-                                 f"(answered by {amap[f.name]}) but no connected protocol implements "
-                                 f"{', '.join('%s.%s' % m for m in members) or '(no member)'}")
-                    if nontrivial:
-                        for (i, m) in ok:
-                            if i in h01.NINE:
-                                todo += [(f.name, state, i, m, label, override) for label, override in [("", None)] + world.variants(i, m)]
-                    if nontrivial and ok and amap[f.name] != "-":
-                        i, m = ok[0]
-                        try:
-                            target = world.relayers[i].relay(m) if (i, m) != ("PushUpdater", "start") else None
-                        except Exception:
-                            target = None
-                        serving = patches.owner.get(id(getattr(target, "__self__", None)))
-                        if serving is not None:
-                            ctx.note("answering-vs-serving:" + ("same" if serving == amap[f.name] else "different"))
-                # the reported features' members, actually invoked through the device object with
-                # default-style arguments and every other value of their enum / optional parameters
-                gate = None
-                for (fname, state, i, m, label, _o), got in zip(todo, invoke_all(world, todo)):
-                    ctx.note("invoked:" + ("not-supported" if got.startswith("!") else "served"))
-                    if not got.startswith("!"):
-                        continue
-                    if (i, m) == ("Stream", "play_url"):
-                        gate = world.gate_open() if gate is None else gate
-                        if not gate:
-                            ctx.note("oracle:play_url-gate-closed-not-judged")
-                            continue
-                    call = f"{i}.{m}({label})"
-                    ctx.fail(f"{key}:{holder or '-'}:{fname}:{call}",
-                             {"scenario": sc, "holder": holder, "feature": fname, "call": call},
-                             f"{state}; {call} raised NotSupportedError", "the call is routed to an implementation",
-                             f"connected {'+'.join(S)} ({key}, takeover holder {holder or 'none'}) reports {fname}={state} "
-                             f"and a connected protocol implements {i}.{m}, but {call} through the device object "
-                             f"fails with NotSupportedError")
+                evaluate(world, sc, holder, {"before": before} if before else None, "after-other-devices" if before else "")
                 if release:
                     release()
-                obs.append((sc, S, video, holder, reported, backed, amap))
+
+        # -- after well-formed takeover/release histories with refused takeovers (harness/c01.gen_history)
+        if ops is not None:
+            hist = [(only[0], ops)]
+        elif only is None:
+            rng = ctx.rng.fork("histories")
+            pool = scenarios
+            hist = []
+            for k in range(ctx.scale(30, 150)):
+                sc = pool[30] if k % 3 == 0 else rng.choice(pool)
+                hist.append((sc, h01.gen_history(rng.fork(k), rng.randint(3, ctx.scale(10, 30)))))
+        else:
+            hist = []
+        for sc, hops in hist:
+            world = h01.World(patches, sc)
+            if world.connect_error or not world.S:
+                continue
+            refused = 0
+            for step in apply_ops(world, hops):
+                evaluate(world, sc, None, {"ops": hops[: step + 1]}, "after-history")
+            ctx.note("history:ops", len(hops))
+            ctx.note("histories")
+
         qs = sorted({q for (_sc, S, video, _h, _r, _b, _a) in obs
                      for q in (f"features {h01.set_bits(S)} {1 if video else 0}", f"backed {h01.set_bits(S)}", f"map {h01.set_bits(S)}")})
         # the five get_feature implementations, fresh and rich
@@ -329,6 +400,22 @@ def run(ctx, only=None):
 def replay(ctx, failure):
     case = failure["case"]
     c2 = type(ctx)(ctx.prop, ctx.tier, ctx.seed, ctx.driver.driver_rel)
-    run(c2, only=[case["scenario"]])
+    run(c2, only=[case["scenario"]], before=case.get("before"), ops=case.get("ops"))
     return any(f["sig"] == failure["sig"] for f in c2.failures)
+
+
+def shrink(ctx, failure):
+    """a device that fails after others were set up: find one earlier device that is enough"""
+    case = failure["case"]
+    if not case.get("before"):
+        return failure
+    for sc in [None] + case["before"]:
+        c2 = type(ctx)(ctx.prop, ctx.tier, ctx.seed, ctx.driver.driver_rel)
+        run(c2, only=[case["scenario"]], before=[sc] if sc else [])
+        hit = [f for f in c2.failures if f["sig"] == failure["sig"]]
+        if hit:
+            return hit[0]
+    return failure
+
+
 GEN_MODULES = ["c01"]
